@@ -612,12 +612,21 @@ def ma_mask_or(m1, m2, copy=False, shrink=True):
 def ma_masked_where(condition, a, copy=True):
     base = a if isinstance(a, ndarray) else _as_nd(a)
     d = base.data if isinstance(base, MaskedArray) else base
-    if copy:
-        d = d.copy()
     cond = _mask_term_array(condition, d.shape) or [S._F()] * d.size
     old = base.maskcells() if isinstance(base, MaskedArray) else [S._F()] * d.size
-    return MaskedArray(d, _new([S._simp(z3.Or(c, o)) for c, o in zip(cond, old)], d.shape, 'b'),
-                       base._fill if isinstance(base, MaskedArray) else None)
+    new = [S._simp(z3.Or(c, o)) for c, o in zip(cond, old)]
+    fill = base._fill if isinstance(base, MaskedArray) else None
+    if copy or not isinstance(base, ndarray) or not isinstance(a, ndarray):
+        return MaskedArray(d.copy() if copy else d, _new(new, d.shape, 'b'), fill)
+    # copy=False: the result is a view of `a`; numpy assigns the new mask THROUGH the shared mask array, so a masked
+    # input sees the new missing cells too (and an input without a mask array receives the result's mask)
+    if isinstance(base, MaskedArray):
+        if base._mask is None:
+            base._mask = _new([S._F()] * d.size, d.shape, 'b')
+        for p_, v in zip(base._mask.idx.ravel().tolist(), new):
+            base._mask.buf[p_] = v
+        return MaskedArray(d, base._mask, fill)
+    return MaskedArray(d, _new(new, d.shape, 'b'), fill)
 
 
 def ma_masked_invalid(a, copy=True):
@@ -772,6 +781,8 @@ def apply():
     M.power = np_power
     M.clip = np_clip
     M.zeros, M.ones, M.masked_all = ma_zeros, ma_ones, ma_masked_all
+    M.empty_like = lambda a, dtype=None: MaskedArray(np_empty_like(a.data if isinstance(a, MaskedArray) else a, dtype), None)
+    N.flatnonzero = lambda a: (_ for _ in ()).throw(Inconclusive('flatnonzero (memory-layout dependent flat views) is not modelled'))
     M.zeros_like = lambda a: ma_zeros(a.shape, a.kind)
     M.ones_like = lambda a: ma_ones(a.shape, a.kind)
     M.stack, M.vstack, M.concatenate = ma_stack, ma_vstack, ma_concatenate
